@@ -50,11 +50,14 @@ def LOHALF (b : Byte) : Byte := toU8 (zx b &&& 0x0F#32)
 unsigned integer (little-endian platform, asserted by the harness) -/
 def lane {w : Nat} (v : BitVec w) (k : Nat) : Byte := (v >>> (8 * k)).truncate 8
 
-/-- the unsigned integer whose object representation is the given bytes
-(little-endian: byte `k` has weight `256^k`) -/
-def ofLanes (w : Nat) : List Byte → BitVec w
-  | [] => 0#w
-  | b :: bs => BitVec.ofNat w (b.toNat + 256 * (ofLanes w bs).toNat)
+/-- the number whose little-endian object representation is the given bytes
+(byte `k` has weight `256^k`) -/
+def lanesNat : List Byte → Nat
+  | [] => 0
+  | b :: bs => b.toNat + 256 * lanesNat bs
+
+/-- the `w`-bit unsigned integer with that object representation -/
+def ofLanes (w : Nat) (bs : List Byte) : BitVec w := BitVec.ofNat w (lanesNat bs)
 
 /-! ### hexascii.c : `hexascii_encode`, `hexascii_decode` -/
 
